@@ -10,163 +10,13 @@
 //! another thread) gave the identical result, levels and probe readings.  Probe readings are
 //! State::fuel_levels() taken by the template function probe() while the render is running.
 //! Mode `prog = -1`: describe - prints for program n the number of programs (used by the check to size its loops).
-use minijinja::value::Value;
-use minijinja::{context, Environment, State};
+use minijinja::{Environment, State};
+
+#[path = "c13_common/programs.rs"]
+mod programs;
+use programs::*;
 use mjverif::*;
 use std::sync::{Arc, Mutex};
-
-pub const NPROGS: i64 = 34;
-
-fn rep(s: &str, n: i64) -> String {
-    s.repeat(n.max(0) as usize)
-}
-
-/// The fixed family of template programs.  First entry is the template rendered.
-fn program(id: i64, n: i64, m: i64, _k: i64) -> Vec<(String, String)> {
-    let t = |name: &str, src: String| (name.to_string(), src);
-    match id {
-        0 => vec![t("main", String::new())],
-        1 => vec![t("main", rep("{% with %}{% endwith %}", n))],
-        2 => vec![t("main", rep("{% with %}{% autoescape false %}{% endautoescape %}{% endwith %}", n + 1))],
-        3 => vec![t("main", format!("{}{{{{ probe() }}}}", rep("hello ", n)))],
-        4 => vec![t("main", format!("{{{{ 1{} }}}}{{{{ probe() }}}}", rep(" + n * 2", m)))],
-        5 => vec![t("main", "{% for i in items %}{{ i }}{{ probe() }},{% endfor %}{{ probe() }}".into())],
-        6 => vec![t(
-            "main",
-            "{% for i in items %}{% for j in range(m) %}{{ i * j }}{% if j == k %}{{ probe() }}{% endif %}{% endfor %}|{% endfor %}".into(),
-        )],
-        7 => vec![t(
-            "main",
-            "{% if k == 0 %}zero{% elif k == 1 %}one{{ probe() }}{% elif k == 2 %}two{% else %}{{ k }}{{ probe() }}{% endif %}{{ probe() }}".into(),
-        )],
-        8 => vec![t(
-            "main",
-            format!("{{% macro f(a, b=2) %}}[{{{{ a }}}}:{{{{ b }}}}{{{{ probe() }}}}]{{% endmacro %}}{}", rep("{{ f(n) }}{{ f(1, b=k) }}", m)),
-        )],
-        9 => vec![t(
-            "main",
-            "{% macro down(x) %}{{ x }}{% if x > 0 %}{{ down(x - 1) }}{% else %}{{ probe() }}{% endif %}{% endmacro %}{{ down(n) }}{{ probe() }}".into(),
-        )],
-        10 => vec![t(
-            "main",
-            "{% macro wrap(t) %}<{{ t }}>{{ caller(t) }}</{{ t }}>{% endmacro %}{% for i in items %}{% call(x) wrap(i) %}{{ x }}{{ probe() }}{% endcall %}{% endfor %}".into(),
-        )],
-        11 => vec![
-            t("main", "{% for i in items %}{% include 'inc' %}{% endfor %}{{ probe() }}".into()),
-            t("inc", "({{ i }}{% if i == k %}{{ probe() }}{% endif %})".into()),
-        ],
-        12 => {
-            let mut v = vec![t("main", "{{ probe() }}{% include 'inc0' %}{{ probe() }}".into())];
-            for d in 0..=m {
-                let body = if d < m {
-                    format!("<{}{{% include 'inc{}' %}}{{{{ probe() }}}}>", d, d + 1)
-                } else {
-                    "leaf{{ probe() }}".to_string()
-                };
-                v.push(t(&format!("inc{}", d), body));
-            }
-            v
-        }
-        13 => vec![
-            t("main", "{% extends 'base' %}{% block body %}child {{ n }}{{ probe() }}{% endblock %}".into()),
-            t("base", "<{% block head %}head{{ probe() }}{% endblock %}|{% block body %}base{% endblock %}>{{ probe() }}".into()),
-        ],
-        14 => vec![
-            t("main", "{% extends 'mid' %}{% block body %}c{{ super() }}{{ probe() }}{% endblock %}".into()),
-            t("mid", "{% extends 'base' %}{% block body %}m{{ super() }}{% for i in items %}{{ i }}{% endfor %}{% endblock %}".into()),
-            t("base", "<{% block body %}b{{ probe() }}{% endblock %}>{% block foot %}foot{{ k }}{% endblock %}".into()),
-        ],
-        15 => vec![
-            t("main", "{% import 'lib' as lib %}{% from 'lib' import twice %}{% for i in items %}{{ lib.one(i) }}{{ twice(i) }}{% endfor %}{{ probe() }}".into()),
-            t("lib", "{% macro one(x) %}{{ x }}{{ probe() }}{% endmacro %}{% macro twice(x) %}{{ one(x) }}{{ one(x) }}{% endmacro %}".into()),
-        ],
-        16 => vec![t(
-            "main",
-            "{% set cap %}{% for i in items %}{{ i }}{% endfor %}{{ probe() }}{% endset %}{% filter upper %}x{{ cap }}y{% endfilter %}{{ probe() }}".into(),
-        )],
-        17 => vec![t(
-            "main",
-            "{% for i in range(n + m) %}{% if i == k %}{% continue %}{% endif %}{% if i == n %}{{ probe() }}{% break %}{% endif %}{{ loop.cycle('a', 'b') }}{{ loop.index }}{% endfor %}".into(),
-        )],
-        18 => vec![t(
-            "main",
-            "{% for node in tree recursive %}({{ node.v }}{{ probe() }}{{ loop(node.c) }}){% endfor %}".into(),
-        )],
-        19 => vec![t(
-            "main",
-            "{{ items|map('string')|join(',') }}{{ items|select('odd')|list|length }}{{ s|upper|replace('A', 'b')|length }}{{ probe() }}{{ items|sum + (items|length) }}".into(),
-        )],
-        20 => vec![t(
-            "main",
-            "{% autoescape true %}{{ s }}{% autoescape false %}{{ s }}{{ probe() }}{% endautoescape %}{% with a = n, b = m %}{{ a + b }}{% with c = a %}{{ c }}{% endwith %}{% endwith %}{% endautoescape %}".into(),
-        )],
-        21 => vec![
-            t("main", "{% include 'nope' ignore missing %}{% include ['nope', 'inc'] %}{% for i in items %}{% include ['inc', 'nope'] ignore missing %}{% endfor %}{{ probe() }}".into()),
-            t("inc", "[{{ k }}]{{ probe() }}".into()),
-        ],
-        22 => vec![
-            t("main", "{% macro outer(x) %}{% include 'inc' %}{% endmacro %}{% for i in items %}{{ outer(i) }}{% endfor %}{{ probe() }}".into()),
-            t("inc", "{% macro inner(y) %}<{{ y }}{{ probe() }}>{% endmacro %}{{ inner(x) }}{{ inner(k) }}".into()),
-        ],
-        23 => vec![
-            t("main", "{% extends 'base' %}{% block row %}{% for i in items %}{% include 'cell' %}{% endfor %}{{ probe() }}{% endblock %}".into()),
-            t("base", "{% for r in range(m) %}[{% block row scoped %}{% endblock %}]{% endfor %}{{ probe() }}".into()),
-            t("cell", "{{ r }}.{{ i }} ".into()),
-        ],
-        24 => vec![t(
-            "main",
-            "{% block title %}T{{ n }}{{ probe() }}{% endblock %}{% for i in range(m) %}{{ self.title() }}{% endfor %}{{ probe() }}".into(),
-        )],
-        25 => vec![t(
-            "main",
-            "{% set ns = namespace(x=0) %}{% for i in items %}{% set ns.x = ns.x + i %}{% endfor %}{{ ns.x }}{{ probe() }}".into(),
-        )],
-        26 => vec![t(
-            "main",
-            format!("{{{{ probe() }}}}{}{{{{ probe() }}}}{}{{{{ probe() }}}}", rep("a{{ n }}", n), rep("{{ m is defined and q is not defined }}", m)),
-        )],
-        27 => vec![t(
-            "main",
-            "{{ items[1:] }}{{ items[::-1]|first }}{{ {'a': n, 'b': [m, k]}.b[1] }}{{ [n, m, k]|max }}{{ s[:2] }}{{ probe() }}{{ d.x ~ d['y'] }}".into(),
-        )],
-        28 => vec![t(
-            "main",
-            "{% for key, value in d|items %}{{ key }}={{ value }}{% endfor %}{% for i in items %}{{ i }}{% else %}empty{{ probe() }}{% endfor %}{{ probe() }}".into(),
-        )],
-        29 => vec![t(
-            "main",
-            "{% macro g(a, b=n, c=b) %}{{ a }}{{ b }}{{ c }}{{ probe() }}{% endmacro %}{{ g(1) }}{{ g(1, 2) }}{{ probe() }}{{ g(a=k) }}{% for i in items %}{{ g(i, c=i) }}{% endfor %}".into(),
-        )],
-        30 => vec![t(
-            "main",
-            "{{ (flag and n) or m }}{{ n if flag else m }}{{ flag and probe() }}{{ (k > 1 or probe()) and 'x' }}{{ probe() }}".into(),
-        )],
-        31 => vec![
-            t("main", "{% extends parent %}{% block body %}{% for i in items %}{{ super() }}{% endfor %}{{ probe() }}{% endblock %}".into()),
-            t("p0", "A{% block body %}a{{ k }}{% endblock %}".into()),
-            t("p1", "B{% block body %}{% for j in range(m) %}b{% endfor %}{{ probe() }}{% endblock %}".into()),
-        ],
-        // renders whose unlimited run ends in an error: the same error must come back above the threshold
-        32 => vec![t(
-            "main",
-            "{% for i in items %}{{ i }}{% endfor %}{{ probe() }}{{ n + m }}{{ missing.attr.deeper }}tail".into(),
-        )],
-        _ => vec![
-            t("main", "{% for i in items %}{% include 'inc' %}{% endfor %}".into()),
-            t("inc", "{{ i }}{{ probe() }}{% if i == k %}{{ 1 // 0 }}{% endif %}".into()),
-        ],
-    }
-}
-
-fn tree(depth: i64, width: i64) -> Value {
-    if depth <= 0 {
-        return Value::from(Vec::<Value>::new());
-    }
-    let kids: Vec<Value> = (0..width.max(1).min(3))
-        .map(|v| context! { v => v + 10 * depth, c => tree(depth - 1, width) })
-        .collect();
-    Value::from(kids)
-}
 
 type Probes = Arc<Mutex<Vec<(u64, u64)>>>;
 
@@ -191,15 +41,7 @@ fn render_once(progs: &[(String, String)], n: i64, m: i64, k: i64, fuel: Option<
         String::new()
     });
     env.set_fuel(fuel);
-    let ctx = context! {
-        n => n, m => m, k => k,
-        items => (0..n).collect::<Vec<i64>>(),
-        flag => k % 2 == 1,
-        s => "a<b&c",
-        parent => format!("p{}", k % 2),
-        tree => tree(m.min(3), n),
-        d => context! { x => n, y => "why" },
-    };
+    let ctx = ctx(n, m, k);
     let tmpl = env.get_template("main").expect("main");
     let r = tmpl.render_captured(ctx);
     let (res, levels) = match r {
